@@ -7,7 +7,20 @@ Plain tree (JSON, same encoding as lean/DelbDriver/Tree.lean):
 
 from __future__ import annotations
 
+import io
+
 XML_NS = "http://www.w3.org/XML/1998/namespace"
+
+
+class KeepBytesIO(io.BytesIO):
+    """Document.write wraps the buffer in a TextIOWrapper that closes it when collected."""
+
+    def close(self):
+        self._kept = self.getvalue()
+        super().close()
+
+    def value(self):
+        return self._kept if self.closed else self.getvalue()
 
 
 # ---------------------------------------------------------------- extraction
@@ -113,6 +126,15 @@ def full_text(tree):
 # ---------------------------------------------------------------- writers / builders
 def esc_text(s):
     return s.replace("&", "&amp;").replace("<", "&lt;").replace(">", "&gt;").replace("\r", "&#13;")
+
+
+def esc_text_min(s):
+    """exactly the three characters delb escapes in text"""
+    return s.replace("&", "&amp;").replace("<", "&lt;").replace(">", "&gt;")
+
+
+def esc_attr_min(s):
+    return esc_text_min(s).replace('"', "&quot;")
 
 
 def esc_attr(s):
